@@ -286,7 +286,7 @@ Definition flush_done (c : conn) (tfo : bool) : outcome (conn * list cevent) :=
   do l <- buf_len (c_out c);
   let flags := Z.lor ARES_CONN_STATE_READ
                  (Z.lor (if tfo then ARES_CONN_STATE_WRITE else 0)
-                        (if c_tcp c && negb (l =? 0) then ARES_CONN_STATE_WRITE else 0)) in
+                        (if negb (l =? 0) then ARES_CONN_STATE_WRITE else 0)) in   (* any transport *)
   Ok (sock_state_update c flags).
 
 Definition hd_cap (ws : list wcap) : wcap := match ws with w :: _ => w | [] => Cap 0 end.
